@@ -49,11 +49,18 @@ type conf struct {
 	// connection serve loop does, so response header buffers are recycled between requests and
 	// anything the cache kept by reference is overwritten by the next response.
 	ReuseCtx bool
+	// KeepSlices (workload switch, injected storage only): the storage retains the slices it is
+	// given and returns them uncopied (keepStore), like fiber's own memory storage driver.
+	KeepSlices bool
+	// KeyNames (workload switch): the logical keys of the history; nil = k0..k4. Used for key
+	// sets whose members end in _GET / _HEAD / _POST / _body or extend one another by such a
+	// suffix, which must still be kept apart per method and per key.
+	KeyNames []string
 }
 
 func (cf conf) String() string {
-	return fmt.Sprintf("exp=%d expgen=%v inv=%v next=%v max=%d hdr=%v keygen=%d methods=%v vstore=%v cc=%v polite=%v reusectx=%v",
-		cf.Exp, cf.ExpGen, cf.Inv, cf.Next, cf.MaxBytes, cf.StoreHdr, cf.KeyGen, cf.Methods, cf.VStore, cf.CacheCtl, cf.Polite, cf.ReuseCtx)
+	return fmt.Sprintf("exp=%d expgen=%v inv=%v next=%v max=%d hdr=%v keygen=%d methods=%v vstore=%v cc=%v polite=%v reusectx=%v keepslices=%v keys=%v",
+		cf.Exp, cf.ExpGen, cf.Inv, cf.Next, cf.MaxBytes, cf.StoreHdr, cf.KeyGen, cf.Methods, cf.VStore, cf.CacheCtl, cf.Polite, cf.ReuseCtx, cf.KeepSlices, cf.KeyNames)
 }
 
 func (cf conf) backend() string {
@@ -308,6 +315,9 @@ func newRig(e *ev.Env, c *ev.Case, cf conf) *rig {
 			}
 		}
 		cc.Storage = g.vs
+		if cf.KeepSlices {
+			cc.Storage = newKeepStore(g.vs)
+		}
 	}
 	switch cf.KeyGen {
 	case 1:
